@@ -66,6 +66,46 @@ theorem exact_iff (toks : List Tok) (d : DefInfo) (declName : String)
     rw [← huniq t' ht' heq.symm, hcls]
   · exact listed_of_cls toks d declName hname hscope t ht hcast hspell
 
+/-! ### the search scope (`Definition::search_scope`) -/
+
+/-- the definition's own module is always searched - also when it belongs to no package of the graph (a free-standing
+file; before /repo fix 4b98c21 the scope of a module-level definition was the package graph alone) -/
+theorem own_in_scope (graphFiles : List Nat) (isLocal : Bool) (own : Nat) :
+    own ∈ searchScope graphFiles isLocal own := by
+  unfold searchScope
+  split <;> simp
+
+/-- every module of a package of the graph is searched for a module-level definition -/
+theorem graph_in_scope (graphFiles : List Nat) (own f : Nat) (h : f ∈ graphFiles) :
+    f ∈ searchScope graphFiles false own := by
+  simp [searchScope, h]
+
+/-- a local is searched in its own module only -/
+theorem local_scope (graphFiles : List Nat) (own f : Nat) :
+    f ∈ searchScope graphFiles true own ↔ f = own := by
+  simp [searchScope]
+
+/-- **`exact_iff` with the scope computed**: an occurrence spelled with the declaration's name that lies in the
+definition's own module or in a module of a package of the graph (for a local: in its own module) is listed exactly
+when it classifies to the definition -/
+theorem exact_iff_scoped (toks : List Tok) (id : Nat) (declName : String) (graphFiles : List Nat) (isLocal : Bool) (own : Nat)
+    (t : Tok) (ht : t ∈ toks) (hcast : t.castable = true) (hspell : t.text = declName)
+    (hfile : t.file = own ∨ (isLocal = false ∧ t.file ∈ graphFiles))
+    (huniq : ∀ t' ∈ toks, (t'.file, t'.start, t'.stop) = (t.file, t.start, t.stop) → t'.cls = t.cls) :
+    (t.file, t.start, t.stop) ∈ references toks ⟨id, some declName, searchScope graphFiles isLocal own⟩ ↔ t.cls = some id := by
+  constructor
+  · intro hr
+    obtain ⟨n, t', hn, ht', heq, -, -, -, hcls⟩ := (mem_references _ _ _).mp hr
+    rw [← huniq t' ht' heq.symm, hcls]
+  · intro hcls
+    refine (mem_references _ _ _).mpr ⟨declName, t, rfl, ht, rfl, ?_, hspell, hcast, hcls⟩
+    rcases hfile with h | ⟨hl, h⟩
+    · rw [h]; exact own_in_scope _ _ _
+    · subst hl; exact graph_in_scope _ _ _ h
+
+/-- the scope before the fix missed the declaration itself for a free-standing module (no package: empty graph) -/
+example : (5 : Nat) ∉ ([] : List Nat) ∧ 5 ∈ searchScope [] false 5 := by simp [searchScope]
+
 /-- asking again from any listed occurrence gives the same set: the answer depends only on the
 definition the occurrence classifies to -/
 theorem refs_closed (toks : List Tok) (defs : Nat → DefInfo) (hid : ∀ i, (defs i).id = i)
